@@ -78,6 +78,15 @@ def _is_trim_of(o, field):
     return contains(o[2][0], lambda x: x[0] == "field" and x[2] == field)
 
 
+def _is_event_elem(o):
+    """an element of response.events (whatever adapter-free way it is iterated)"""
+    o = peel(o)
+    if o[0] != "bound" or o[1] != "elem":
+        return False
+    src = peel(o[2])
+    return src[0] == "field" and src[2] == "events" and is_param(src[1], "response")
+
+
 def r2_attrs(ctx, cfg):
     F, P = cfg.facts, cfg.prov
     R = "C13.R2"
@@ -173,8 +182,7 @@ def r2_resp(ctx, cfg):
             ok = all(cf.must_pass(bid, r) for r in cf.return_blocks() if _returns_ok(P, f, r))
             ctx.ob(R, key, "response-attributes-always-checked", ok, "an Ok return is reachable without checking the response attributes", fn=f, line=t["line"],
                    sample="dominates every Ok return")
-        elif a[0] == "field" and a[2] == "attributes" and contains(a[1], lambda x: x[0] == "call" and x[1].endswith("Iterator::next")) and \
-                contains(a[1], lambda x: x[0] == "field" and x[2] == "events" and is_param(x[1], "response")):
+        elif a[0] == "field" and a[2] == "attributes" and _is_event_elem(a[1]):
             seen.add("events")
         # result is propagated
         conds_after = None
